@@ -62,6 +62,8 @@ def materialise(job, cap=6, with_key=False, pre=()):
     h, seq, sd = job[:3]
     if list(seq) == ['GIANT']:      # the one very large document (giant_model below), addressed like any other (headers, seq, seed) job
         return giant_model(sd, headers=tuple(h))
+    if list(seq) == ['SIGNATURES']:
+        return many_signatures_model(sd)
     if list(seq) == ['DISTINCT']:
         return distinct_single_model(sd)
     if list(seq[:1]) == ['ALIGNED']:
@@ -320,4 +322,25 @@ def distinct_single_model(seed, n=4300):
         if k % 16 == 0:
             m.add([A.V(f'={k // 16 + 1}', 'BARLINES', '=')])
         m.add(r)
+    return m.close()
+
+
+def many_signatures_model(seed, changes=90):
+    """two kern spines: the first changes its clef (and, every third time, its key or time signature) `changes` times, the second keeps the clef of the beginning -
+    more signature tokens along one path, and more clef tokens in one export, than any bounded cache or layered lookup of 64 entries holds"""
+    from .model import Model
+    m = Model(['**kern', '**kern'])
+    clefs = ['*clefG2', '*clefF4', '*clefC3', '*clefC4', '*clefGv2']
+    m.add([A.V(clefs[seed % 5], 'CLEF'), A.V('*clefF4', 'CLEF')])
+    pits = ['c', 'e', 'g', 'BB', 'dd', 'F', 'a', 'CC']
+    for i in range(changes):
+        sig = A.V(clefs[(i + seed + 1) % 5], 'CLEF')
+        m.add([sig, A.NULL_I])
+        if i % 3 == 1:
+            m.add([A.V(['*k[f#]', '*k[b-]', '*k[]'][i % 3], 'KEY_SIGNATURE'), A.NULL_I])
+        if i % 3 == 2:
+            m.add([A.V(['*M4/4', '*M3/4'][i % 2], 'TIME_SIGNATURE'), A.NULL_I])
+        if i % 8 == 0:
+            m.add([A.V(f'={i // 8 + 1}', 'BARLINES', '=')] * 2)
+        m.add([A.note('4', pits[i % 8]), A.note('8', pits[(i + 3) % 8], '#' if i % 2 else '')])
     return m.close()
